@@ -68,6 +68,13 @@ func c09FaultDrivers() []concParams {
 		add(fmt.Sprintf("compact+manifest-sync-fault#%d-vs-tr-vs-close", nth), "flushy/bytewise", []string{"put:a", "put:b"}, [][]string{{"cr"}, {"tr:+a,+b"}, {"close"}}, f(vstor.KSync, storage.TypeManifest, nth, 3, vstor.ModeFail))
 		out[len(out)-1].QB = 2
 	}
+	// writers and a transaction commit that wait for the table compaction (pause trigger at two
+	// level-0 tables) while that compaction fails or the DB is closed
+	thr := []string{"put:a", "put:b"}
+	out = append(out, concParams{Name: "throttled-writers-vs-close", Cfg: "throttle/bytewise", Pre: thr, Clients: [][]string{{"put:a", "put:b"}, {"put:c"}, {"close"}}, QB: 1, TB: 2})
+	for nth := 1; nth <= 2; nth++ {
+		add(fmt.Sprintf("throttled-writers+table-create-fault#%d", nth), "throttle/bytewise", thr, [][]string{{"put:a", "put:b"}, {"tr:+a,+c"}, {"get:a"}}, f(vstor.KCreate, storage.TypeTable, nth, 3, vstor.ModeFail))
+	}
 	add("compact+manifest-write-fault-vs-tr", "flushy/bytewise", []string{"put:a", "put:b"}, [][]string{{"cr"}, {"tr:+a,+b"}, {"put:c"}}, f(vstor.KWrite, storage.TypeManifest, 1, 1, vstor.ModeFail))
 	return out
 }
@@ -105,7 +112,11 @@ func init() {
 			if !quick {
 				rd, rmax = 6, 10
 			}
-			runFaultCheck(c, "C09", cfgs, hist, quick, false, richHistories(c, "C09", rd, rmax)...)
+			extra := richHistories(c, "C09", rd, rmax)
+			for _, h := range c08Throttle {
+				extra = append(extra, cfgHist{"throttle/bytewise", h})
+			}
+			runFaultCheck(c, "C09", cfgs, hist, quick, false, extra...)
 			runConcChecks(c, "C09", c09Drivers(), 2, 0)
 			runConcChecks(c, "C09", c09FaultDrivers(), 1, 0)
 			c.Coverage["rule"] = "(a) per history x single-fault plan (as C08) the history is followed by a probe suite whose every call must return; (b) DFS over schedules with deviation bounding of clients racing Close / SetReadOnly / transactions / CompactRange; (c) the same with one storage fault armed during the window (journal write, manifest sync x3, table create, table write, manifest write); verdict per execution from the scheduler: deadlock (nobody enabled, no timer), hang (virtual clock passes 1h with a client call outstanding), livelock (step budget); distinct_nontrivial = fault plans whose error surfaced + distinct concurrent histories"
